@@ -1887,6 +1887,297 @@ def run_uuid_stream(ctx):
                             {'uusc': sc, 'tag': 'uuid-lookup'})
 
 
+# ---------------------------------------------------------------------------------- special configurations
+# Three configurations in which the rows / count / lookups must still equal the plain evaluation over the raw rows:
+#  (inherit) selects over an InheritableSQLObject hierarchy, iterated in fetchmany batches of 1..5 rows
+#            (`InheritableIteration.defaultArraySize`, 10000 by default) with parent, child and grandchild rows mixed;
+#  (joinarg) selects whose second table comes in through the `join=` argument (LEFTJOINOn / INNERJOINOn), plain and
+#            DISTINCT: list, count, len(list) and sum against the fanned-out / distinct rows;
+#  (fkkey)   selectBy(<fkName>=key) / selectBy(<fkName>ID=key) / q.<fk>ID == key / unique-index get for a foreign key
+#            to a STRING-keyed class, with keys that look like numbers ('007', ' 7', '42', '0') and others.
+# Oracle: raw SELECTs + Python.
+
+_spenv = {}
+DEPOT_KEYS = ['7', '007', ' 7', '0042', '42', 'N1', '', "o'k", '0', '00']
+
+
+def sp_env():
+    if _spenv:
+        return _spenv
+    sqlo.setup()
+    from sqlobject import SQLObject, IntCol, StringCol, ForeignKey, DatabaseIndex
+    from sqlobject.inheritance import InheritableSQLObject
+    conn = sqlo.mem_conn()
+
+    class C11IPar(InheritableSQLObject):
+        _connection = conn
+        a = IntCol(default=None)
+        s = StringCol(default=None)
+
+    class C11IKid(C11IPar):
+        k = IntCol(default=None)
+
+    class C11IKid2(C11IPar):
+        z = StringCol(default=None)
+
+    class C11IGrand(C11IKid):
+        gg = IntCol(default=None)
+
+    class C11JAuthor(SQLObject):
+        _connection = conn
+        name = StringCol(default=None)
+        a = IntCol(default=None)
+
+    class C11JBook(SQLObject):
+        _connection = conn
+        author = ForeignKey('C11JAuthor', default=None)
+        title = StringCol(default=None)
+
+    class C11KDepot(SQLObject):
+        _connection = conn
+
+        class sqlmeta:
+            idType = str
+        name = StringCol(default=None)
+
+    class C11KItem(SQLObject):
+        _connection = conn
+        depot = ForeignKey('C11KDepot', default=None)
+        n = IntCol(default=None)
+        idx = DatabaseIndex('depot', 'n', unique=True)
+    classes = dict(par=C11IPar, kid=C11IKid, kid2=C11IKid2, grand=C11IGrand, author=C11JAuthor, book=C11JBook,
+                   depot=C11KDepot, item=C11KItem)
+    for k in ('par', 'kid', 'kid2', 'grand', 'author', 'book', 'depot', 'item'):
+        classes[k].createTable()
+    _spenv.update(conn=conn, **classes)
+    return _spenv
+
+
+def sp_clear(*keys):
+    e = sp_env()
+    for k in keys:
+        e['conn'].query('DELETE FROM %s' % e[k].sqlmeta.table)
+    try:
+        e['conn'].query('DELETE FROM sqlite_sequence')
+    except Exception:
+        pass
+    e['conn'].cache.clear()
+
+
+def gen_sp_scenario(rng):
+    kind = rng.choice(['inherit', 'inherit', 'joinarg', 'fkkey'])
+    dom = [None, 0, 1, 2, 5]
+    if kind == 'inherit':
+        n = rng.choice([0, 1, 3, 4, 5, 7, 9, 12])
+        rows = [[rng.choice(['par', 'kid', 'kid', 'kid2', 'grand']), rng.choice(dom), rng.choice([None, 'x', 'y']), rng.choice(dom)]
+                for _ in range(n)]
+        return {'kind': kind, 'batch': rng.choice([1, 2, 2, 3, 3, 5, 10000]), 'rows': rows,
+                'muts': [[rng.choice(['del', 'upd']), rng.randint(1, max(n, 1)), rng.choice(dom)] for _ in range(rng.choice([0, 1, 2]))]}
+    if kind == 'joinarg':
+        na = rng.choice([0, 1, 2, 3, 5])
+        authors = [rng.choice(dom) for _ in range(na)]
+        books = [rng.choice([None] + list(range(1, na + 1))) for _ in range(rng.choice([0, 1, 3, 5, 8]))] if na else []
+        return {'kind': kind, 'authors': authors, 'books': books}
+    depots = rng.sample(DEPOT_KEYS, rng.choice([1, 3, 5, 8]))
+    items = []
+    used = set()
+    for _ in range(rng.choice([0, 2, 4, 7])):
+        d, n = rng.choice([None] + depots), rng.choice([1, 1, 2, 3])
+        if (d, n) in used and d is not None:
+            continue
+        used.add((d, n))
+        items.append([d, n, rng.random() < 0.5])        # depot key, n, given as instance?
+    return {'kind': kind, 'depots': depots, 'items': items}
+
+
+def _cmp(bad, what, got, want):
+    if got != want:
+        bad.append('%s: %r, the raw rows give %r' % (what, got, want))
+
+
+def sp_inherit(sc):
+    from sqlobject.inheritance.iteration import InheritableIteration
+    e = sp_env()
+    conn, Par, Kid = e['conn'], e['par'], e['kid']
+    sp_clear('grand', 'kid2', 'kid', 'par')
+    bad = []
+    old = InheritableIteration.defaultArraySize
+    InheritableIteration.defaultArraySize = sc['batch']
+    try:
+        for kind, a, s, x in sc['rows']:
+            if kind == 'par':
+                Par(a=a, s=s)
+            elif kind == 'kid':
+                Kid(a=a, s=s, k=x)
+            elif kind == 'kid2':
+                e['kid2'](a=a, s=s, z=None if x is None else 'z%d' % x)
+            else:
+                e['grand'](a=a, s=s, k=x, gg=x)
+        for phase in range(2):
+            if phase == 1:
+                if not sc['muts']:
+                    break
+                for m, i, v in sc['muts']:
+                    try:
+                        o = Par.get(i)
+                    except Exception:
+                        continue
+                    if m == 'del':
+                        o.destroySelf()
+                    else:
+                        o.a = v
+            truth = [tuple(r) for r in conn.queryAll('SELECT id, a, s, child_name FROM %s ORDER BY id' % Par.sqlmeta.table)]
+            kid_ids = set(r[0] for r in conn.queryAll('SELECT id FROM %s' % Kid.sqlmeta.table))
+            grand_ids = set(r[0] for r in conn.queryAll('SELECT id FROM %s' % e['grand'].sqlmeta.table))
+            kid2_ids = set(r[0] for r in conn.queryAll('SELECT id FROM %s' % e['kid2'].sqlmeta.table))
+
+            def cname(i):
+                return 'C11IGrand' if i in grand_ids else 'C11IKid' if i in kid_ids else 'C11IKid2' if i in kid2_ids else 'C11IPar'
+
+            def shown(sel):
+                return [None if o is None else (o.id, o.a, o.s, type(o).__name__) for o in sel]
+            want = [(t[0], t[1], t[2], cname(t[0])) for t in truth]
+            tag = 'batch %d, phase %d' % (sc['batch'], phase)
+            _cmp(bad, "%s: Par.select(orderBy='id')" % tag, shown(Par.select(orderBy='id')), want)
+            _cmp(bad, "%s: Par.select().orderBy('-id')" % tag, shown(Par.select().orderBy('-id')), want[::-1])
+            w2 = sorted(want, key=lambda t: (_nf(t[1]), -t[0]))
+            _cmp(bad, "%s: Par.select(orderBy=['a','-id'])" % tag, shown(Par.select(orderBy=['a', '-id'])), w2)
+            _cmp(bad, "%s: Par.select(orderBy=('a','-id')).reversed()" % tag, shown(Par.select(orderBy=('a', '-id')).reversed()), w2[::-1])
+            _cmp(bad, "%s: Par.select(lazyColumns).orderBy('id') ids" % tag, [o.id for o in Par.select(orderBy='id', lazyColumns=True)], [t[0] for t in want])
+            _cmp(bad, '%s: len(list(select)) vs count()' % tag, (len(list(Par.select())), Par.select().count()), (len(want), len(want)))
+            for v in sorted(set(t[1] for t in want), key=_nf):
+                w = [t for t in want if t[1] == v]
+                _cmp(bad, '%s: Par.selectBy(a=%r).orderBy(id)' % (tag, v), shown(Par.selectBy(a=v).orderBy('id')), w)
+                _cmp(bad, '%s: Par.select(q.a==%r).count()' % (tag, v), Par.select(Par.q.a == v).count(), len(w))
+            vals = [t[1] for t in want if t[1] is not None]
+            _cmp(bad, '%s: sum/min/max(a)' % tag, (Par.select().sum('a'), Par.select().min('a'), Par.select().max('a')),
+                 (sum(vals) if vals else None, min(vals) if vals else None, max(vals) if vals else None))
+            wk = [t for t in want if t[0] in kid_ids]
+            _cmp(bad, "%s: Kid.select(orderBy='id')" % tag, shown(Kid.select(orderBy='id')), wk)
+            _cmp(bad, '%s: Kid.select().count()' % tag, Kid.select().count(), len(wk))
+            if want:
+                t = want[len(want) // 2]
+                got = Par.selectBy(id=t[0]).getOne(DEFAULT)
+                _cmp(bad, '%s: Par.selectBy(id=%d).getOne()' % (tag, t[0]), 'default' if got is DEFAULT else (got.id, got.a, got.s, type(got).__name__), t)
+    except Exception as ex:
+        bad.append('raised %s: %s' % (exc_out(ex), str(ex)[:160]))
+    finally:
+        InheritableIteration.defaultArraySize = old
+    return bad
+
+
+def sp_joinarg(sc):
+    from sqlobject.sqlbuilder import LEFTJOINOn, INNERJOINOn
+    e = sp_env()
+    conn, A, B = e['conn'], e['author'], e['book']
+    sp_clear('book', 'author')
+    bad = []
+    try:
+        for a in sc['authors']:
+            A(name='n', a=a)
+        for au in sc['books']:
+            B(authorID=au, title='t')
+        authors = [tuple(r) for r in conn.queryAll('SELECT id, a FROM %s ORDER BY id' % A.sqlmeta.table)]
+        books = [r[0] for r in conn.queryAll('SELECT author_id FROM %s' % B.sqlmeta.table)]
+        for jname, J in (('LEFTJOINOn', LEFTJOINOn), ('INNERJOINOn', INNERJOINOn)):
+            for fv in [None] + sorted(set(a for _, a in authors if a is not None)):
+                rows = [t for t in authors if fv is None or t[1] == fv]
+                fan = []
+                for t in rows:
+                    m = books.count(t[0])
+                    fan += [t] * (max(m, 1) if jname == 'LEFTJOINOn' else m)
+                for dist in (False, True, 'method'):
+                    join = J(None, B, B.q.authorID == A.q.id)
+                    clause = None if fv is None else (A.q.a == fv)
+                    sel = A.select(clause, join=join, distinct=(dist is True), orderBy='id')
+                    if dist == 'method':
+                        sel = sel.distinct()
+                    want = sorted(set(fan)) if dist else fan
+                    tag = 'select(%s, join=%s(None, Book, …)%s)' % ('a==%r' % fv if fv is not None else 'all', jname,
+                                                                     ', distinct' if dist is True else '.distinct()' if dist else '')
+                    got = [(o.id, o.a) for o in sel]
+                    _cmp(bad, tag + ' rows', got, want)
+                    _cmp(bad, tag + ' count() vs len(list)', (sel.count(), len(got)), (len(want), len(want)))
+                    vals = [t[1] for t in want if t[1] is not None]
+                    if dist:
+                        vals = sorted(set(vals))
+                    _cmp(bad, tag + ' sum(a)', sel.sum(A.q.a), sum(vals) if vals else None)
+    except Exception as ex:
+        bad.append('raised %s: %s' % (exc_out(ex), str(ex)[:160]))
+    return bad
+
+
+def sp_fkkey(sc):
+    from sqlobject import SQLObjectNotFound
+    from sqlobject.main import SQLObjectIntegrityError
+    e = sp_env()
+    conn, D, I = e['conn'], e['depot'], e['item']
+    sp_clear('item', 'depot')
+    bad = []
+    try:
+        objs = {k: D(id=k, name='d') for k in sc['depots']}
+        for d, n, inst in sc['items']:
+            if d is None:
+                I(depot=None, n=n)
+            elif inst:
+                I(depot=objs[d], n=n)
+            else:
+                I(depotID=d, n=n)
+        truth = [tuple(r) for r in conn.queryAll('SELECT id, depot_id, n FROM %s ORDER BY id' % I.sqlmeta.table)]
+        stored = [r[0] for r in conn.queryAll('SELECT id FROM %s' % D.sqlmeta.table)]
+        _cmp(bad, 'depot keys stored', sorted(stored), sorted(sc['depots']))
+
+        def shown(sel):
+            return [(o.id, o.depotID, o.n) for o in sel]
+        for key in DEPOT_KEYS + ['0007', '7 ']:
+            w = [t for t in truth if t[1] == key]
+            _cmp(bad, 'selectBy(depot=%r).orderBy(id)' % key, shown(I.selectBy(depot=key).orderBy('id')), w)
+            _cmp(bad, 'selectBy(depot=%r).count()' % key, I.selectBy(depot=key).count(), len(w))
+            _cmp(bad, 'selectBy(depotID=%r).orderBy(id)' % key, shown(I.selectBy(depotID=key).orderBy('id')), w)
+            _cmp(bad, 'select(q.depotID == %r)' % key, shown(I.select(I.q.depotID == key, orderBy='id')), w)
+            if key in objs:
+                _cmp(bad, 'selectBy(depot=<Depot %r>)' % key, shown(I.selectBy(depot=objs[key]).orderBy('id')), w)
+            for n in (1, 2):
+                ww = [t for t in w if t[2] == n]
+                want = 'not-found' if not ww else ww[0] if len(ww) == 1 else 'integrity'
+                for how in ('pos', 'kw'):
+                    try:
+                        o = I.idx.get(key, n) if how == 'pos' else I.idx.get(depot=key, n=n)
+                        got = None if o is None else (o.id, o.depotID, o.n)
+                    except SQLObjectNotFound:
+                        got = 'not-found'
+                    except SQLObjectIntegrityError:
+                        got = 'integrity'
+                    _cmp(bad, 'idx.get(%r, %d) [%s]' % (key, n, how), got, want)
+        w = [t for t in truth if t[1] is None]
+        _cmp(bad, 'selectBy(depot=None)', shown(I.selectBy(depot=None).orderBy('id')), w)
+    except Exception as ex:
+        bad.append('raised %s: %s' % (exc_out(ex), str(ex)[:160]))
+    return bad
+
+
+def run_sp_scenario(sc):
+    return {'inherit': sp_inherit, 'joinarg': sp_joinarg, 'fkkey': sp_fkkey}[sc['kind']](sc)
+
+
+def run_sp_stream(ctx):
+    corpus = [
+        {'kind': 'inherit', 'batch': 2, 'muts': [['upd', 2, 5], ['del', 4, None]],
+         'rows': [['par', 1, 'x', None], ['kid', 2, 'y', 1], ['kid2', None, None, 2], ['grand', 0, 'x', 5], ['kid', 1, None, None], ['par', 2, 'y', 0], ['kid', 2, 'x', 2]]},
+        {'kind': 'inherit', 'batch': 1, 'muts': [], 'rows': [['kid', 1, 'x', 1], ['kid', 1, 'x', 1], ['grand', 1, 'x', 1]]},
+        {'kind': 'joinarg', 'authors': [1, 1, None, 2, 0], 'books': [1, 1, 1, 2, 4, 4, None]},
+        {'kind': 'fkkey', 'depots': ['7', '007', ' 7', '42', '0042', 'N1', ''],
+         'items': [['007', 1, False], ['7', 1, True], ['7', 2, False], [' 7', 1, False], ['0042', 1, True], ['42', 1, False], ['', 1, False], [None, 1, False], ['N1', 3, True]]},
+    ]
+    scenarios = corpus + [gen_sp_scenario(ctx.rng) for _ in range(ctx.budget(40, 800))]
+    for sc in scenarios:
+        bad = run_sp_scenario(sc)
+        ctx.case(('sp', json.dumps(sc, sort_keys=True)), nontrivial=True, sample={'scenario': sc, 'discrepancies': bad[:2]},
+                 kind='special:%s%s' % (sc['kind'], ':batch%d' % sc['batch'] if sc['kind'] == 'inherit' else ''))
+        if bad:
+            ctx.oracle_fail('C11:%s:%s' % (sc['kind'], json.dumps(sc, sort_keys=True, separators=(',', ':'))),
+                            '%s scenario %s: %s' % (sc['kind'], sc, '; '.join(bad[:3])), {'sp': sc, 'tag': 'special'})
+
 
 def corpus_cases():
     d = os.path.join(os.path.dirname(os.path.dirname(os.path.abspath(__file__))), 'corpus', 'C11')
@@ -1907,6 +2198,7 @@ def run(ctx):
     run_text_stream(ctx)
     run_uuid_stream(ctx)
     run_mc_stream(ctx)
+    run_sp_stream(ctx)
     for fn, c in corpus_cases():
         run_table(ctx, c['table'], [(ph.get('mutations', []), ph['queries']) for ph in c['phases']], 'corpus:' + fn)
     n_tables = ctx.budget(550, 14000)
@@ -1917,6 +2209,9 @@ def run(ctx):
 
 
 def replay(case):
+    if 'sp' in case:
+        bad = run_sp_scenario(case['sp'])
+        return not bad, '%s scenario: %s\n%s' % (case['sp']['kind'], case['sp'], '\n'.join(bad) or 'agrees')
     if 'mc' in case:
         bad = run_mc_scenario(case['mc'])
         return not bad, 'several connections: %s\n%s' % (case['mc'], '\n'.join(bad) or 'agrees')
